@@ -125,6 +125,8 @@ type lexer struct {
 
 	done     chan struct{} // Closed by stop when no more tokens will be read.
 	stopOnce sync.Once
+
+	readErr error // The error that cut the input short, if any.
 }
 
 // lexStopped is used to unwind the tokenizer once stop has been called.
@@ -183,7 +185,14 @@ func (l *lexer) tokenize() {
 			l.mode = modeClosed
 		}
 	}()
-	for l.state = lexData; l.state != nil; {
+	l.state = lexData
+	if l.readErr != nil {
+		// Only part of the template could be read: that is not the template.
+		l.state = func(l *lexer) stateFn {
+			return l.errorf("unable to read the template: %v", l.readErr)
+		}
+	}
+	for l.state != nil {
 		l.state = l.state(l)
 	}
 }
@@ -191,8 +200,8 @@ func (l *lexer) tokenize() {
 // newLexer creates a lexer, ready to begin tokenizing.
 func newLexer(input io.Reader) *lexer {
 	// TODO: lexer should use the reader.
-	i, _ := ioutil.ReadAll(input)
-	return &lexer{0, 0, 1, 0, string(i), make(chan token), nil, modeNormal, token{}, 0, 0, 0, make(chan struct{}), sync.Once{}}
+	i, err := ioutil.ReadAll(input)
+	return &lexer{0, 0, 1, 0, string(i), make(chan token), nil, modeNormal, token{}, 0, 0, 0, make(chan struct{}), sync.Once{}, err}
 }
 
 func (l *lexer) next() (val string) {
